@@ -106,4 +106,10 @@ theorem created_collection_reopens_identically (name : Bytes) (opts : Cfg) (hq :
     (by rw [h2]; exact decodeOpts_encodeOpts name opts hname) (by rw [h2]; exact hm)
   exact ⟨c', e1, by rw [e2, h2], e3, e4, e5⟩
 
+/-- **only create-and-overwrite discards data**: in that mode the constructor gives the newly created collection whatever
+    the file held; every other mode is covered by `created_collection_reopens_identically` -/
+theorem overwrite_mode_discards (existing : Option Bytes) (name : Bytes) (opts : Cfg) (dec : Bytes → Cfg → Option Cfg) :
+    newCollection existing name opts .createAndOverwrite dec = newCollection none name opts .createIfNotExists dec :=
+  overwrite_discards existing name opts dec
+
 end Syzgy.C02
